@@ -374,22 +374,24 @@ impl MqttState {
                 "PubAck Pkid = {:?}, reason: {:?}",
                 puback.pkid, puback.reason
             );
-            return Ok(None);
         }
 
-        if let Some(publish) = self.check_collision(puback.pkid) {
-            self.outgoing_pub[publish.pkid as usize] = Some(publish.clone());
-            self.inflight += 1;
+        // the packet id is free again (also when the broker rejected the publish)
+        Ok(self.resend_collision(puback.pkid))
+    }
 
-            let pkid = publish.pkid;
-            let event = Event::Outgoing(Outgoing::Publish(pkid));
-            self.events.push_back(event);
-            self.collision_ping_count = 0;
+    /// Sends the publish that was parked on `pkid` (if any) now that the id is free again,
+    /// recording it like any other outgoing QoS 1/2 publish
+    fn resend_collision(&mut self, pkid: u16) -> Option<Packet> {
+        let publish = self.check_collision(pkid)?;
+        self.outgoing_pub[publish.pkid as usize] = Some(publish.clone());
+        self.inflight += 1;
 
-            return Ok(Some(Packet::Publish(publish)));
-        }
+        let event = Event::Outgoing(Outgoing::Publish(publish.pkid));
+        self.events.push_back(event);
+        self.collision_ping_count = 0;
 
-        Ok(None)
+        Some(Packet::Publish(publish))
     }
 
     fn handle_incoming_pubrec(&mut self, pubrec: &PubRec) -> Result<Option<Packet>, StateError> {
@@ -410,7 +412,9 @@ impl MqttState {
                 "PubRec Pkid = {:?}, reason: {:?}",
                 pubrec.pkid, pubrec.reason
             );
-            return Ok(None);
+            // the QoS 2 flow ends here: there will be no PUBCOMP to free the window slot
+            self.inflight -= 1;
+            return Ok(self.resend_collision(pubrec.pkid));
         }
 
         // NOTE: Inflight - 1 for qos2 in comp
@@ -443,31 +447,22 @@ impl MqttState {
     }
 
     fn handle_incoming_pubcomp(&mut self, pubcomp: &PubComp) -> Result<Option<Packet>, StateError> {
-        let outgoing = self.check_collision(pubcomp.pkid).map(|publish| {
-            let pkid = publish.pkid;
-            let event = Event::Outgoing(Outgoing::Publish(pkid));
-            self.events.push_back(event);
-            self.collision_ping_count = 0;
-
-            Packet::Publish(publish)
-        });
-
         if !self.outgoing_rel.contains(pubcomp.pkid as usize) {
             error!("Unsolicited pubcomp packet: {:?}", pubcomp.pkid);
             return Err(StateError::Unsolicited(pubcomp.pkid));
         }
         self.outgoing_rel.set(pubcomp.pkid as usize, false);
+        self.inflight -= 1;
 
         if pubcomp.reason != PubCompReason::Success {
             warn!(
                 "PubComp Pkid = {:?}, reason: {:?}",
                 pubcomp.pkid, pubcomp.reason
             );
-            return Ok(None);
         }
 
-        self.inflight -= 1;
-        Ok(outgoing)
+        // the QoS 2 flow is over either way and the packet id is free again
+        Ok(self.resend_collision(pubcomp.pkid))
     }
 
     fn handle_incoming_pingresp(&mut self) -> Result<Option<Packet>, StateError> {
